@@ -60,11 +60,12 @@ ASSUMPTIONS = [
 ]
 BUDGET = {"quick": 30, "thorough": 480}
 FLOORS = {
-    "quick": {"evaluations": 3000, "distinct_nontrivial": 2500,
-              "counters": {"sdl_calls": 30000, "sdl_npartitions_calls": 14000, "sdl_chunksize_calls": 14000,
-                           "sdl_inputs_with_duplicates": 12000, "npartitions_exact_checked": 7000,
-                           "internal_boundaries_checked": 50000, "quantile_set_index": 700,
-                           "quantile_direct": 700, "quantile_divisions_checked": 1500},
+    "quick": {"evaluations": 4000, "distinct_nontrivial": 3800,
+              "counters": {"sdl_calls": 55000, "sdl_npartitions_calls": 27000, "sdl_chunksize_calls": 27000,
+                           "sdl_inputs_with_duplicates": 48000, "npartitions_exact_checked": 12000,
+                           "internal_boundaries_checked": 650000, "quantile_set_index": 2200,
+                           "quantile_direct": 2200, "quantile_divisions_checked": 4000,
+                           "set_index_quantile_divisions": 1800, "quantile_with_empty_input_partitions": 300},
               "max_skipped_fraction": 0.1},
     "thorough": {"evaluations": 30000, "distinct_nontrivial": 25000,
                  "counters": {"sdl_calls": 350000, "sdl_npartitions_calls": 170000, "sdl_chunksize_calls": 170000,
